@@ -200,7 +200,10 @@ def load_scene(
     try:
         if isinstance(file_obj, dict):
             # we've been passed a dictionary so treat them as keyword arguments
-            loaded = _load_kwargs(file_obj)
+            # along with any passed keyword arguments, i.e. `process=False`
+            parsed = deepcopy(kwargs)
+            parsed.update(file_obj)
+            loaded = _load_kwargs(parsed)
         elif arg.file_type in path_formats():
             # use path loader
             loaded = load_path(
@@ -457,7 +460,16 @@ def _load_kwargs(*args, **kwargs) -> Geometry:
         """
         # if they've been serialized as a dict
         if isinstance(kwargs["vertices"], dict) or isinstance(kwargs["faces"], dict):
-            return Trimesh(**misc.load_dict(kwargs))
+            decoded = misc.load_dict(kwargs)
+            # keep the arguments which aren't encoded arrays, i.e. `process`
+            decoded.update(
+                {
+                    k: v
+                    for k, v in kwargs.items()
+                    if k not in decoded and not (isinstance(v, dict) and "dtype" in v)
+                }
+            )
+            return Trimesh(**decoded)
         # otherwise just load that puppy
         return Trimesh(**kwargs)
 
